@@ -10,6 +10,8 @@ mod fields;
 mod gen;
 mod layout;
 mod real;
+mod stream;
+mod streamchk;
 mod util;
 
 use std::collections::{BTreeMap, HashSet};
@@ -179,7 +181,7 @@ where
 	g.2
 }
 
-fn pick_versions(db: &LayoutDb, beh: &Beh, idx: usize, nver: usize, seed: u64) -> Vec<[u8; 3]> {
+pub fn pick_versions(db: &LayoutDb, beh: &Beh, idx: usize, nver: usize, seed: u64) -> Vec<[u8; 3]> {
 	let all = gen::versions_for(db, beh);
 	if all.is_empty() {
 		return vec![];
@@ -254,9 +256,13 @@ fn cmd_replay_beh(a: &Args) {
 					"c01" => ctx.c01_roundtrip(&mut viols),
 					"c03" => ctx.c03_fields(true, true, &mut viols),
 					"c04" => ctx.c04_oneshot(&mut viols),
-					"inc04" => ctx.incremental("c04", &mut viols),
-					"inc12" => ctx.incremental("c12", &mut viols),
-					"inc13" => ctx.incremental("c13", &mut viols),
+					"inc04" => ctx.incremental("c04", stream::Frag::Whole, &mut viols),
+					"inc12" => {
+						ctx.incremental("c12", stream::Frag::Whole, &mut viols);
+						ctx.incremental("c12", stream::Frag::Fixed(1 + (idx + vi) % 7), &mut viols);
+						ctx.incremental("c12", stream::Frag::Random(seed ^ idx as u64), &mut viols);
+					}
+					"inc13" => ctx.incremental("c13", stream::Frag::Whole, &mut viols),
 					"rows" => ctx.rowview(&mut viols),
 					"arrow" => ctx.arrow(&mut viols),
 					"slpp" => ctx.slpp_roundtrip(&comps, (idx + vi) % 2 == 0, &mut viols),
@@ -277,6 +283,9 @@ fn main() {
 	match a.cmd.as_str() {
 		"replay-beh" => cmd_replay_beh(&a),
 		"fields" => fields::cmd_fields(&a),
+		"sched" => streamchk::cmd_sched(&a),
+		"cuts" => streamchk::cmd_cuts(&a),
+		"skip" => streamchk::cmd_skip(&a),
 		_ => {
 			eprintln!("usage: pv <replay-beh|...> --key value ...");
 			std::process::exit(2);
